@@ -83,6 +83,14 @@ Theorem C29_items_eq_ints : forall a b, json_items_eq (JInt a) (JInt b) = (a =? 
 Proof. exact items_eq_ints. Qed.
 Print Assumptions C29_items_eq_ints.
 
+(* PostgreSQL (documented array-literal syntax, not executed): the text[] literal written for  expr #> path  is read back as the texts of
+   the path steps -- ints as decimal text, str keys as they are, a double quote inside a key included -- for keys without a backslash
+   and identifier-like keys that are not spelled NULL *)
+Theorem C29_pg_path_except_known : forall uw keys, forallb (pg_key_ok uw) keys = true ->
+  pg_array (pg_json_path uw keys) = Some (map (fun k => PText (pg_key_text k)) keys).
+Proof. exact pg_path_roundtrip. Qed.
+Print Assumptions C29_pg_path_except_known.
+
 Example C29_nonvacuous :
   parse_path ascii_only (json_path ascii_only [KKey [97]; KIdx (-12); KKey [100; 46; 101]; KKey []; KKey [49; 97]])
     = Some [KKey [97]; KIdx (-12); KKey [100; 46; 101]; KKey []; KKey [49; 97]]
